@@ -641,11 +641,17 @@ func both(name string, ops ...Op) []Script {
 
 func corpus() []Script {
 	var cs []Script
+	// former finding S7 (a full shard evicted an unexpired lock), repaired in the code: these
+	// scripts must now run clean (the shard grows instead) and stay here as regression cases
+	cs = append(cs,
+		Script{Name: "S7 full shard must not evict a live lock", Svc: "im", Cap: 1, NS: 1, Ops: []Op{lk(1, 10, 0), il(1, 0), lk(2, 10, 1), il(1, 0), lk(2, 10, 0), il(2, 0), il(1, 0)}},
+		Script{Name: "S7 no self eviction inside one Lock", Svc: "im", Cap: 1, NS: 1, Ops: []Op{lk(1, 10, 0, 1), il(1, 0), il(1, 0, 1), dl(1, 10, 2, 3), il(1, 0, 1, 2, 3)}},
+		Script{Name: "S7 capacity 3", Svc: "im", Cap: 3, NS: 1, Ops: []Op{lk(1, 10, 0), lk(2, 20, 1), lk(3, 30, 2), lk(2, 5, 3), lk(3, 5, 0), il(1, 0)}},
+		Script{Name: "full shard: expired entries are evicted one by one, held ones never", Svc: "im", Cap: 2, NS: 1, Ops: []Op{lk(1, 1, 0), lk(2, 2, 1), tk(2), lk(3, 9, 2), il(2, 1), tk(1), lk(3, 9, 3), lk(1, 9, 4), lk(2, 9, 1), tk(20), lk(1, 3, 5), lk(1, 3, 6)}},
+		Script{Name: "full shard above the sample size", Svc: "im", Cap: 6, NS: 1, Ops: []Op{lk(1, 1, 0), lk(1, 2, 1), lk(1, 3, 2), lk(2, 9, 3), lk(2, 9, 4), lk(2, 9, 5), tk(4), lk(3, 9, 6), lk(3, 9, 7), lk(3, 9, 8), lk(3, 9, 9), il(2, 3, 4, 5)}},
+	)
 	// known findings, hit on every run
 	cs = append(cs,
-		Script{Name: "S7 eviction of a live lock", Svc: "im", Cap: 1, NS: 1, Ops: []Op{lk(1, 10, 0), il(1, 0), lk(2, 10, 1), il(1, 0), lk(2, 10, 0), il(2, 0)}},
-		Script{Name: "S7 self eviction inside one Lock", Svc: "im", Cap: 1, NS: 1, Ops: []Op{lk(1, 10, 0, 1), il(1, 0), dl(1, 10, 2, 3)}},
-		Script{Name: "S7 capacity 3", Svc: "im", Cap: 3, NS: 1, Ops: []Op{lk(1, 10, 0), lk(2, 20, 1), lk(3, 30, 2), lk(2, 5, 3), lk(3, 5, 0), il(1, 0)}},
 		Script{Name: "R1 unlock after own expiry", Svc: "rd", Ops: []Op{lk(1, 2, 0), tk(3), lk(2, 10, 0), ul(1, 0), il(2, 0), lk(3, 10, 0)}},
 		Script{Name: "R1 second unlock with a stale flag", Svc: "rd", Ops: []Op{lk(1, 10, 0), ul(1, 0), lk(2, 10, 0), ul(1, 0), il(2, 0)}},
 		Script{Name: "R2 IsLockedTTL by a non-owner shortens the TTL", Svc: "rd", Ops: []Op{lk(1, 2, 0), tk(3), lk(2, 100, 0), tt(1, 1, 0), il(2, 0), tk(2), lk(3, 5, 0)}},
